@@ -123,8 +123,10 @@ def slices_to_raw_chunks(slice_filename_lists, dest_url, input_orientation,
         else:
             first_slice = first_slice_in_order
             last_slice = last_slice_in_order
+        # A reversed stack ends at index 0, which cannot be expressed with
+        # a stop index of -1 (that would count from the end)
         slice_slicing = np.s_[first_slice
-                              : last_slice
+                              : last_slice if last_slice >= 0 else None
                               : input_axis_inversions[2]]
         tqdm.write("Reading slices {} to {} ({}B memory needed)... "
                    .format(first_slice, last_slice - input_axis_inversions[2],
